@@ -3,6 +3,7 @@ import Ruint.Lemmas.GenMulWrap
 import Ruint.Lemmas.GenInvRing
 import Ruint.Gen.InvRingConsts
 import Ruint.Lemmas.GenUintModMul
+import Ruint.Lemmas.GenBinOps
 
 /-!
 # C02 — multiplication is exact: wrapping, overflow flag, widening product, ring inverse
@@ -224,5 +225,15 @@ theorem gen_widening_mul_eq (bits bitsRhs bitsRes limbsRes : ℕ) (hB : bits + b
     Ruint.Gen.uint_widening_mul f bitsRhs (nlimbs bitsRhs) bitsRes limbsRes bits (nlimbs bits) a b
       = Ruint.Mul.wideningMulG bits bitsRhs bitsRes limbsRes a b :=
   Ruint.GenUintMod.widening_mul_eq bits bitsRhs bitsRes limbsRes hB a b ha hb hla hlb f hlen
+
+/-- the six operator shapes of `*` (`impl_bin_op!`, regenerated from `src/macros.rs`) are `wrapping_mul` on the same operands. -/
+theorem gen_mul_operator_shapes (bits L : Nat) (a b : List Nat) :
+    Ruint.Gen.op_mul_assign_val bits L a b = Ruint.Gen.uint_wrapping_mul bits L a b
+      ∧ Ruint.Gen.op_mul_assign_ref bits L a b = Ruint.Gen.uint_wrapping_mul bits L a b
+      ∧ Ruint.Gen.op_mul_val_val bits L a b = Ruint.Gen.uint_wrapping_mul bits L a b
+      ∧ Ruint.Gen.op_mul_val_ref bits L a b = Ruint.Gen.uint_wrapping_mul bits L a b
+      ∧ Ruint.Gen.op_mul_ref_val bits L a b = Ruint.Gen.uint_wrapping_mul bits L a b
+      ∧ Ruint.Gen.op_mul_ref_ref bits L a b = Ruint.Gen.uint_wrapping_mul bits L a b :=
+  Ruint.GenBinOps.mul_shapes bits L a b
 
 end Ruint.C02
